@@ -55,7 +55,23 @@ def run_one(pid: str, tier: str, repo_root: Path, replay: str | None = None) -> 
             mod.thorough(repo, rep)
     except core.AnalysisError as exc:
         print(f"ANALYSIS-ERROR property={pid} {exc}")
-        return 2
+        part = core.CURRENT
+        rc = 2
+        if part is not None and part.pid == pid:
+            # violations established before the analysis broke down are still violations
+            known = core.load_known()
+            rdir = Path(os.environ.get("VERIF_EVIDENCE_DIR", str(core.VERIF / "evidence"))) / "replay"
+            k = 0
+            for o in part.violations():
+                if core.match_known(o, pid, known) is None:
+                    rdir.mkdir(parents=True, exist_ok=True)
+                    path = rdir / f"{pid}-{k}.json"
+                    path.write_text(json.dumps({"property": pid, "key": o.key(), "obligation": o.to_json()}, indent=1, default=str))
+                    print(f"  {o.where()}: [{o.rule}] {o.role}: {o.detail}\n      stmt: {o.stmt}")
+                    print(f"VIOLATION property={pid} replay={path}")
+                    k += 1
+                    rc = 1
+        return rc
     except Exception:  # noqa: BLE001  tracebacks must not look like violations
         tb = traceback.format_exc()
         print(f"ANALYSIS-ERROR property={pid} internal error\n{tb}")
